@@ -7,6 +7,7 @@ import (
 	"sort"
 	"strings"
 	"sync"
+	"sync/atomic"
 	"time"
 
 	"github.com/Comcast/rulio/core"
@@ -386,6 +387,67 @@ func execCacheCase(c Case) {
 			wg.Wait()
 			after, _ := s.GetStats(ctx)
 			c["stress_loads"] = int(after.NewLocations - b0)
+		}
+		// TTL never: requests that OVERLAP in time (each keeps the location busy for 150 ms inside a
+		// script) share the one pending instance: a single load
+		s, ctx, err = newCacheSystem(sys.Never, false, linear)
+		if err == nil {
+			s.AddFact(ctx, "warm", "w", `{"a":1}`)
+			before, _ := s.GetStats(ctx)
+			b0 := before.NewLocations
+			var wg sync.WaitGroup
+			start := make(chan bool)
+			for i := 0; i < n; i++ {
+				wg.Add(1)
+				go func() {
+					defer wg.Done()
+					cx := core.NewContext("rh")
+					cx.Verbosity = core.NOTHING
+					<-start
+					s.RunJavascript(cx, "S", "Env.sleep(150000000); 1", nil, nil, nil)
+				}()
+			}
+			close(start)
+			wg.Wait()
+			after, _ := s.GetStats(ctx)
+			c["stress_loads_never"] = int(after.NewLocations - b0)
+		}
+		// existence checking on, a location that was never created, overlapping first requests (the
+		// one that loads is slowed down at its log records so that the others arrive meanwhile):
+		// every one of them must fail and nothing may be created or written
+		s, ctx, err = newCacheSystem(sys.Forever, true, linear)
+		if err == nil {
+			s.AddFact(ctx, "warm", "w", `{"a":1}`)
+			var wg sync.WaitGroup
+			var acks int32
+			start := make(chan bool)
+			for i := 0; i < n; i++ {
+				wg.Add(1)
+				go func(i int) {
+					defer wg.Done()
+					cx := core.NewContext("rh")
+					cx.Verbosity = core.EVERYTHING
+					cx.Logger = core.BenchLogger
+					cx.LogAccumulatorLevel = core.NOTHING
+					cx.LogHook = func(level core.LogLevel, args ...interface{}) {
+						if len(args) > 1 {
+							if op, _ := args[1].(string); op == "System.OpenLocation" || op == "System.newLocation" {
+								time.Sleep(20 * time.Millisecond)
+							}
+						}
+					}
+					<-start
+					if _, err := s.AddFact(cx, "G", fmt.Sprintf("g%d", i), `{"a":1}`); err == nil {
+						atomic.AddInt32(&acks, 1)
+					}
+				}(i)
+			}
+			close(start)
+			wg.Wait()
+			if _, err := s.GetSize(ctx, "G"); err == nil {
+				atomic.AddInt32(&acks, 100) // the ghost location exists now
+			}
+			c["ghost_stress_acks"] = int(atomic.LoadInt32(&acks))
 		}
 	}
 }
